@@ -22,6 +22,9 @@ No == {FALSE}
 
 Sels == {"", "1", "1-", "odd", "l", "2-3", "!1"}
 
+AnnotKinds == {"text", "link", "square", "circle", "line", "freetext", "polygon", "polyline",
+               "highlight", "underline", "squiggly", "strikeout", "caret", "ink"}
+
 OpCatalog ==
        E("optimize", {""}, {0}, No)
   \cup E("rotate", Sels, {90, 180, 270}, No)
@@ -33,7 +36,8 @@ OpCatalog ==
   \cup E("wmimage", {"", "scale:0.3, pos:br"}, {0}, BOOLEAN)
   \cup E("wmpdf", {"", "scale:0.4, rot:90"}, {0}, BOOLEAN)
   \cup E("removewm", {""}, {0}, No)
-  \cup E("annot", {"text", "link", "square"}, {0, 1}, No)               \* n=1: last page
+  \cup E("annot", AnnotKinds, {0, 1, 2}, No)      \* n: class of the optional numeric entries: 0 all zero/absent,
+                                                  \* 1 boundary (a length > 0 with its dependent offset 0, opacity 0), 2 all > 0
   \cup E("removeannots", {""}, {0}, No)
   \cup E("bookmarks", {""}, {1, 2}, BOOLEAN)                            \* n bookmarks, b: replace
   \cup E("removebookmarks", {""}, {0}, No)
@@ -57,7 +61,8 @@ OpCatalog ==
   \cup E("changeupw", {""}, {0}, No)
   \cup E("changeopw", {""}, {0}, No)
   \cup E("setperm", {""}, {0, 1, 2}, No)                                \* none / print / all
-  \cup E("merge", {"create", "append", "zip"}, {0}, BOOLEAN)            \* b: divider page
+  \cup E("merge", {"create", "append", "zip"}, {0, 1}, BOOLEAN)         \* n: second file shorter / longer than the inputs
+                                                                        \* (nested page tree, inherited attributes); b: divider page
   \cup E("split", {""}, {1, 2}, No)                                     \* span
   \cup E("splitbypagenr", {""}, {2}, No)
   \cup E("extractpages", {"1", "l"}, {0}, No)
